@@ -163,6 +163,10 @@ type ssConn struct {
 	rxCrypto *ssCryptoState
 
 	ticketStore *ssTicketStore
+
+	// readErr is the fatal error that is held back while decoded data is
+	// still waiting to be delivered by Read.
+	readErr error
 }
 
 type ssRxState struct {
@@ -177,6 +181,11 @@ func (conn *ssConn) Read(b []byte) (int, error) {
 	var err error
 	// If the receive payload buffer is empty, consume data off the network.
 	for conn.receiveDecodedBuffer.Len() == 0 {
+		if conn.readErr != nil {
+			// Everything that was decoded has been delivered.
+			err = conn.readErr
+			break
+		}
 		if err = conn.readPackets(); err != nil {
 			break
 		}
@@ -186,6 +195,12 @@ func (conn *ssConn) Read(b []byte) (int, error) {
 	var n int
 	if conn.receiveDecodedBuffer.Len() > 0 {
 		n, _ = conn.receiveDecodedBuffer.Read(b)
+		if err != nil && conn.receiveDecodedBuffer.Len() > 0 {
+			// b was too small for all of the decoded data.  A caller that
+			// stops at the first error (eg: io.Copy()) would never see the
+			// rest, so report the error once it has been delivered.
+			conn.readErr, err = err, nil
+		}
 	}
 	return n, err
 }
@@ -530,7 +545,7 @@ func newScrambleSuitClientConn(conn net.Conn, tStore *ssTicketStore, ca *ssClien
 	dist := probdist.New(seed, minLenDistLength, maxLenDistLength, true)
 
 	// Allocate the client structure.
-	c := &ssConn{conn, false, dist, bytes.NewBuffer(nil), bytes.NewBuffer(nil), ssRxState{}, nil, nil, tStore}
+	c := &ssConn{conn, false, dist, bytes.NewBuffer(nil), bytes.NewBuffer(nil), ssRxState{}, nil, nil, tStore, nil}
 
 	// Start the handshake timeout.
 	deadline := time.Now().Add(clientHandshakeTimeout)
